@@ -10,6 +10,9 @@
 (* link was seen before; every load spends one unit of the link budget.    *)
 (* The root is loaded by the caller and is never in `seen`.                *)
 (*   sel: [kind |-> "all"] | [kind |-> "depth", d |-> n]   (n node levels) *)
+(*      | [kind |-> "path", p |-> <<k1, k2, ..>>]  a field path: from a    *)
+(*        node at level i only its k(i+1)-th link is followed; the node    *)
+(*        at the end of the path is matched and nothing below it loaded    *)
 (*                                                                         *)
 (* Loads(...) is the sequence of block loads; the CAR holds Out(loads) =   *)
 (* first occurrences in order.  A two-pass writer counts in pass 1 and     *)
@@ -37,14 +40,22 @@ Init == /\ opt \in Options
 Next == UNCHANGED vars
 Spec == Init /\ [][Next]_vars
 
-Explores(sel, level) == sel.kind = "all" \/ level + 1 < sel.d      \* are the links of a node at this level followed?
+Explores(sel, level) ==      \* are (some) links of a node at this level followed?
+  \/ sel.kind = "all"
+  \/ sel.kind = "depth" /\ level + 1 < sel.d
+  \/ sel.kind = "path" /\ level < Len(sel.p)
 
 (* state threaded through the walk: [loads, seen, budget, err] *)
 RECURSIVE Walk(_, _, _, _, _, _)
 RECURSIVE WalkKids(_, _, _, _, _, _, _)
 
 Walk(K, n, level, sel, once, st) ==
-  IF st.err \/ ~Explores(sel, level) THEN st ELSE WalkKids(K, K[n], 1, level, sel, once, st)
+  IF st.err \/ ~Explores(sel, level) THEN st
+  ELSE IF sel.kind = "path"
+    THEN LET k == sel.p[level + 1] IN
+         IF k > Len(K[n]) THEN st                                    \* no such field: nothing to follow
+         ELSE WalkKids(K, <<K[n][k]>>, 1, level, sel, once, st)
+  ELSE WalkKids(K, K[n], 1, level, sel, once, st)
 
 WalkKids(K, ks, i, level, sel, once, st) ==
   IF st.err \/ i > Len(ks) THEN st
